@@ -56,6 +56,7 @@ type Stats struct {
 	Found       *Found
 	ToolError   string
 	SampleSched []int
+	Warmup      bool // the first execution of the process differed from the later ones (lazily built package state)
 }
 
 func (c *Config) run(prefix []int, trace bool) (*vsched.Exec, Verdict) {
@@ -90,6 +91,20 @@ func Explore(c Config) *Stats {
 	// determinism: the root schedule twice, identical observation logs and signatures
 	x1, v1 := c.run(nil, false)
 	x2, v2 := c.run(nil, false)
+	if x1.LogHash != x2.LogHash || v1.Signature != v2.Signature || len(x1.Points) != len(x2.Points) {
+		// package-level state that is built lazily (a sync.Once, a cache) makes the very first execution of
+		// a process different from all later ones: allow one warm-up execution, then insist on determinism
+		if handleWarm := v1.Violation != ""; handleWarm {
+			// the cold execution itself violates the property: report it (re-run from cold is impossible, so
+			// it is reported as found on the first execution only)
+			st.Found = &Found{Choices: x1.Choices(), Violation: v1.Violation + " (on the first execution of the process)", Outcome: x1.Outcome.String(), Blocked: x1.Blocked, PanicVal: x1.PanicVal, Stack: x1.PanicStack}
+			st.Execs = 1
+			return st
+		}
+		x1, v1 = x2, v2
+		x2, v2 = c.run(nil, false)
+		st.Warmup = true
+	}
 	if x1.LogHash != x2.LogHash || v1.Signature != v2.Signature || len(x1.Points) != len(x2.Points) {
 		st.ToolError = fmt.Sprintf("non-deterministic replay of the root schedule: log %x vs %x, signature %q vs %q, points %d vs %d",
 			x1.LogHash, x2.LogHash, v1.Signature, v2.Signature, len(x1.Points), len(x2.Points))
